@@ -74,9 +74,16 @@ def do_mul(R, tag, f, un, vn, a, b, kind):
     if kind in ("sqr", "mul_same", "mul_n_same"):
         b = a
         ov = ou
+    elif kind == "mul_prefix":
+        # the second source is the low part of the first one (sources may overlap each other; only the destination may not)
+        b = a & al.ones(vn)
+        ov = ou
+    elif kind == "mul_suffix":
+        b = a >> (64 * (un - vn))
+        ov = ou + (un - vn)
     else:
         A.put(ov, b, vn)
-    if kind == "mul":
+    if kind in ("mul", "mul_prefix", "mul_suffix"):
         ret = f(A.addr(orr), A.addr(ou), un, A.addr(ov), vn)
     elif kind == "mul_same":
         ret = f(A.addr(orr), A.addr(ou), un, A.addr(ou), un)
@@ -92,11 +99,11 @@ def do_mul(R, tag, f, un, vn, a, b, kind):
         x = g ^ e
         lo = (x & -x).bit_length() - 1
         R.fail(tag, "%s un=%d vn=%d: product wrong; differs in bits %d..%d" % (kind, un, vn, lo, x.bit_length() - 1))
-    elif kind in ("mul", "mul_same") and ret != e >> (64 * (un + vn - 1)):
+    elif kind in ("mul", "mul_same", "mul_prefix", "mul_suffix") and ret != e >> (64 * (un + vn - 1)):
         R.fail(tag, "%s un=%d vn=%d: returned high limb %x, expected %x" % (kind, un, vn, ret, e >> (64 * (un + vn - 1))))
-    if A.get(ou, un) != a or (ov != ou and A.get(ov, vn) != b):
+    if A.get(ou, un) != a or (ov != ou and not (ou <= ov < ou + un) and A.get(ov, vn) != b):
         R.fail(tag, "%s un=%d vn=%d: source operand modified" % (kind, un, vn))
-    if not A.untouched(end, [(ou, un), (ov, vn), (orr, un + vn)]):
+    if not A.untouched(end, [(ou, un), (ov, vn if ov != ou and not (ou <= ov < ou + un) else 0), (orr, un + vn)]):
         R.fail(tag, "%s un=%d vn=%d: wrote outside {rp,un+vn}" % (kind, un, vn))
     return e != 0
 
@@ -148,6 +155,11 @@ def spaces(tier, variant, seed):
         cfg, un, vn, k, i, j = case
         set_cfg(cfg)
         nz = do_mul(R, "mpn_mul", fmul, un, vn, pats(un)[i], pats(vn)[j], "mul")
+        if vn < un and k < 3:
+            # overlapping sources: the shorter operand is the low / high part of the longer one
+            do_mul(R, "mpn_mul", fmul, un, vn, pats(un)[i], 0, "mul_prefix")
+            if k == 1:
+                do_mul(R, "mpn_mul", fmul, un, vn, pats(un)[i], 0, "mul_suffix")
         return (cfg, un, vn, k) if nz else None
 
     def bal_cases(pairs):
